@@ -5,6 +5,9 @@ def _loom(tier, seed):
 
 SPEC = {
     "custom": _loom,
+    "tie": ["props/C07_tieA.vo"],
+    "gen_items": ["src/vecs/inline.rs + src/bytes/raw.rs:tag arithmetic"],
+    "tieA_required": True,
  "id": "C07",
  "level": "proof",
  "props": [
